@@ -241,7 +241,7 @@ func checkC13(c *core.Ctx) {
 	})
 	if setKnown {
 		c.Check("R1", "Validate checks dupdef for Unions against union branch names", p.Pos(fd.Pos()), len(branchSets) > 0 && consulted,
-		"no loop compares a union's own name with the names defined by union branches: `union Shape { 1 -> struct Circle {} }` followed by `union Circle {}` declares Circle twice")
+			"no loop compares a union's own name with the names defined by union branches: `union Shape { 1 -> struct Circle {} }` followed by `union Circle {}` declares Circle twice")
 	}
 	// the definedness check (typeDefined, or whatever it is called or shaped as:
 	// the function that looks a FieldType's .Simple up in a set of names)
@@ -435,48 +435,48 @@ func checkC13(c *core.Ctx) {
 			bodies = append(bodies, d.Body)
 		}
 		for _, body := range bodies {
-		ast.Inspect(body, func(m ast.Node) bool {
-			cc, is := m.(*ast.CaseClause)
-			if !is || len(cc.List) != 1 || wire.Canon(cc.List[0]) != "numberNode" || found {
-				return true
-			}
-			found = true
-			parse64 := false
-			rangeTest := false
-			for _, s := range cc.Body {
-				ast.Inspect(s, func(k ast.Node) bool {
-					if call, is := k.(*ast.CallExpr); is && len(call.Args) == 3 && strings.HasPrefix(wire.Canon(call.Fun), "strconv.Parse") {
-						if b, isC := constInt(info, call.Args[2]); isC && b == 64 {
-							parse64 = true
-						}
-					}
+			ast.Inspect(body, func(m ast.Node) bool {
+				cc, is := m.(*ast.CaseClause)
+				if !is || len(cc.List) != 1 || wire.Canon(cc.List[0]) != "numberNode" || found {
 					return true
-				})
-				if ifs, is := s.(*ast.IfStmt); is && endsInReturn(ifs.Body) {
-					// a comparison one side of which converts the parsed value to the
-					// evaluator's integer type (any type-parameter name)
-					ast.Inspect(ifs.Cond, func(k ast.Node) bool {
-						be, isB := k.(*ast.BinaryExpr)
-						if !isB || (be.Op != token.NEQ && be.Op != token.LSS && be.Op != token.GTR) {
-							return true
-						}
-						ast.Inspect(be, func(q ast.Node) bool {
-							if call, isC := q.(*ast.CallExpr); isC && len(call.Args) == 1 {
-								if tv := info.Types[call.Fun]; tv.IsType() {
-									if _, isTP := tv.Type.(*types.TypeParam); isTP {
-										rangeTest = true
-									}
-								}
+				}
+				found = true
+				parse64 := false
+				rangeTest := false
+				for _, s := range cc.Body {
+					ast.Inspect(s, func(k ast.Node) bool {
+						if call, is := k.(*ast.CallExpr); is && len(call.Args) == 3 && strings.HasPrefix(wire.Canon(call.Fun), "strconv.Parse") {
+							if b, isC := constInt(info, call.Args[2]); isC && b == 64 {
+								parse64 = true
 							}
-							return true
-						})
+						}
 						return true
 					})
+					if ifs, is := s.(*ast.IfStmt); is && endsInReturn(ifs.Body) {
+						// a comparison one side of which converts the parsed value to the
+						// evaluator's integer type (any type-parameter name)
+						ast.Inspect(ifs.Cond, func(k ast.Node) bool {
+							be, isB := k.(*ast.BinaryExpr)
+							if !isB || (be.Op != token.NEQ && be.Op != token.LSS && be.Op != token.GTR) {
+								return true
+							}
+							ast.Inspect(be, func(q ast.Node) bool {
+								if call, isC := q.(*ast.CallExpr); isC && len(call.Args) == 1 {
+									if tv := info.Types[call.Fun]; tv.IsType() {
+										if _, isTP := tv.Type.(*types.TypeParam); isTP {
+											rangeTest = true
+										}
+									}
+								}
+								return true
+							})
+							return true
+						})
+					}
 				}
-			}
-			ok = !parse64 || rangeTest
-			return false
-		})
+				ok = !parse64 || rangeTest
+				return false
+			})
 		}
 		c.Check("R3", name+" does not narrow a flag literal without a range test", p.Pos(f.Pos()), found && ok,
 			"a literal is parsed as a 64-bit integer and converted with T(x): a value outside the enum's base type is silently truncated instead of rejected")
@@ -928,7 +928,6 @@ func definedSetHoldsTypes(c *core.Ctx, p *load.Prog, fd *ast.FuncDecl) {
 	c.Floor("defined_set_writes", 2)
 }
 
-
 // fileField returns the field name when e selects a field of a value of the
 // package's File type ("" otherwise), whatever the variable is called.
 func fileField(info *types.Info, e ast.Expr) string {
@@ -975,7 +974,6 @@ func collectionName(info *types.Info, e ast.Expr) string {
 	}
 	return wire.Canon(e)
 }
-
 
 // definednessCheck: the function that decides whether a field type's name is
 // defined: it takes a FieldType (parameter or receiver) and a set of names and
@@ -1169,7 +1167,6 @@ func definedTypeSets(p *load.Prog, pkg *packages.Package, fd *ast.FuncDecl) map[
 	}
 	return sets
 }
-
 
 // visitedSetSearch: R5b. When the self-containment analysis is a graph search
 // (depth-first or with a work list) it terminates because of its visited set,
@@ -1685,8 +1682,8 @@ func constLiteralsFit(c *core.Ctx, p *load.Prog) {
 	}
 	type verdict struct {
 		sized, returned bool
-		pos            token.Pos
-		seen           bool
+		pos             token.Pos
+		seen            bool
 	}
 	classes := map[string]*verdict{"unsigned": {}, "signed": {}, "float": {}}
 	for _, fd := range declClosure(p, pkg, f, 2) {
